@@ -91,8 +91,9 @@ def updateVolumes (ups : PCV) (v : PCV) : PCV × PCV :=
 
 /-! ### transactions -/
 
-def Db.setTx (d : Db) (t : Tx) : Db :=
-  { d with txs := d.txs.map (fun x => if x.id = t.id then t else x) }
+/-- `UPDATE transactions SET … WHERE id = …`: `g` on every row with that id. -/
+def Db.modifyTx (d : Db) (id : Nat) (g : Tx → Tx) : Db :=
+  { d with txs := d.txs.map (fun x => if x.id = id then g x else x) }
 
 /-- `CommitTransaction` = `UpdateVolumes` + `InsertTransaction`. -/
 def commitTransaction (now : Time) (t : TxIn) (d : Db) (sq : Seqs) : Seqs × Except StoreErr (Tx × Db) :=
@@ -120,8 +121,8 @@ def revertTransaction (now : Time) (id : Nat) (at_ : Option Time) (d : Db) : Exc
     | some _ => .ok ((t, false), d)
     | none =>
       let w := match at_ with | some x => x | none => now
-      let t' := { t with revertedAt := some w, updatedAt := w }
-      .ok ((t', true), d.setTx t')
+      let g : Tx → Tx := fun x => { x with revertedAt := some w, updatedAt := w }
+      .ok ((g t, true), d.modifyTx id g)
 
 /-- `UpdateTransactionMetadata(id, m, at)`. -/
 def updateTxMeta (now : Time) (id : Nat) (m : Meta) (at_ : Option Time) (d : Db) : Except StoreErr ((Tx × Bool) × Db) :=
@@ -130,8 +131,9 @@ def updateTxMeta (now : Time) (id : Nat) (m : Meta) (at_ : Option Time) (d : Db)
   | some t =>
     if metaContains t.metadata m then .ok ((t, false), d)
     else
-      let t' := { t with metadata := metaMerge t.metadata m, updatedAt := (match at_ with | some x => x | none => now) }
-      .ok ((t', true), d.setTx t')
+      let g : Tx → Tx := fun x =>
+        { x with metadata := metaMerge x.metadata m, updatedAt := (match at_ with | some x => x | none => now) }
+      .ok ((g t, true), d.modifyTx id g)
 
 /-- `DeleteTransactionMetadata(id, key, at)`. -/
 def deleteTxMeta (now : Time) (id : Nat) (key : String) (at_ : Option Time) (d : Db) : Except StoreErr ((Tx × Bool) × Db) :=
@@ -139,8 +141,9 @@ def deleteTxMeta (now : Time) (id : Nat) (key : String) (at_ : Option Time) (d :
   | none => .error .notFound
   | some t =>
     if t.metadata.contains key then
-      let t' := { t with metadata := t.metadata.erase key, updatedAt := (match at_ with | some x => x | none => now) }
-      .ok ((t', true), d.setTx t')
+      let g : Tx → Tx := fun x =>
+        { x with metadata := x.metadata.erase key, updatedAt := (match at_ with | some x => x | none => now) }
+      .ok ((g t, true), d.modifyTx id g)
     else .ok ((t, false), d)
 
 /-! ### accounts -/
